@@ -6,6 +6,6 @@ export CARGO_NET_OFFLINE=true RUST_BACKTRACE=0
 mkdir -p .cache/tmp evidence replays
 ( cd harness && cargo build -q --workspace )
 # /repo's own binaries used by the process-level checks; built into the harness cache
-( cd /repo && cargo build -q --offline -p varlink-cli -p varlink-certification -p varlink_generator \
+( cd /repo && cargo build -q --offline -p varlink-cli -p varlink-certification -p varlink_generator -p ping \
     --target-dir /verif/.cache/repo-target )
 echo "setup ok"
